@@ -91,8 +91,16 @@ fn boundary_buffers(r: &mut Rng) -> Vec<(Vec<u8>, usize)> {
     // labels of 62/63/64 bytes, alone and after other labels
     for l in [1usize, 62, 63, 64, 65, 127, 128, 191, 192] {
         let mut b = vec![l as u8];
-        b.extend(std::iter::repeat(b'x').take(l.min(80)));
+        b.extend(std::iter::repeat(b'x').take(l));
         b.push(0);
+        // the same label reached through a pointer (alone, and after an in-place label)
+        let mut viaptr = b.clone();
+        let at = viaptr.len();
+        viaptr.extend_from_slice(&[0xC0, 0x00]);
+        out.push((viaptr.clone(), at));
+        let at2 = viaptr.len();
+        viaptr.extend_from_slice(&[2, b'p', b'q', 0xC0, 0x00]);
+        out.push((viaptr, at2));
         out.push((b.clone(), 0));
         let mut b2 = vec![1, b'a'];
         b2.extend_from_slice(&b);
